@@ -802,6 +802,7 @@ class AT:
 
     def squeeze(self, axis=None): return jnp_squeeze(self, axis)
     def flatten(self): return jnp_reshape(self, (-1,))
+    def ravel(self): return jnp_reshape(self, (-1,))
     def reshape(self, *shape):
         if len(shape) == 1 and isinstance(shape[0], (tuple, list)):
             shape = tuple(shape[0])
